@@ -176,6 +176,26 @@ namespace verif {
       double cosab = (a.get_px() * b.get_px() + a.get_py() * b.get_py() + a.get_pz() * b.get_pz()) / (a.get_p() * b.get_p());
       bool ok = species_ok && ea >= 0 && eb >= 0 && std::fabs(ea + eb - 0.739) <= 1e-9 && std::fabs(cosab - 1.0) <= 1e-9
                 && same_bits(a.get_time(), b.get_time()) && a.get_time() >= pp[0].get_time();
+      // the documented exception covers the energy sharing of the pair only: its emission time must still be the level's
+      // exponential delay.  The port draws that delay from another tape cell than the reference (the revised spectrum consumes
+      // a different number of deviates), so: T_port / T_ref == ln(u_k) / ln(u_j) for some cells j, k consumed by the two sides.
+      if (ok && ref_state().tape != nullptr) {
+        double Tref = r.dt[1], Tp = a.get_time() - pp[0].get_time();
+        bool tok = (Tref == 0.0 && Tp == 0.0);
+        Tape * tp = ref_state().tape;
+        tp->fill(std::max(ref_draws, port_draws));
+        for (size_t j = 0; j < ref_draws && !tok && Tref > 0; j++)
+          for (size_t k = 0; k < port_draws && !tok; k++) {
+            double lhs = Tp * std::log(tp->cells[j]), rhs = Tref * std::log(tp->cells[k]);
+            if (std::fabs(lhs - rhs) <= 1e-11 * std::fabs(rhs)) tok = true;
+          }
+        if (!tok) {
+          c.same = false; c.kind = "y90pair-time"; c.index = 1;
+          snprintf(buf, sizeof buf, "Y90 pair: emitted %.9g s after the beta; the reference delays it by %.9g s and no consumed deviate gives the port's delay from the same half-life", Tp, Tref);
+          c.detail = buf;
+          return c;
+        }
+      }
       if (!ok) {
         c.same = false; c.kind = "y90pair"; c.index = 1;
         snprintf(buf, sizeof buf, "Y90 pair: species %d,%d E=%.9g+%.9g cos=%.12g t=%.6g,%.6g", (int)a.get_code(), (int)b.get_code(), ea, eb, cosab, a.get_time(), b.get_time());
